@@ -45,8 +45,51 @@ def boundaries(ctx, crate):
     ctx.report(clause, "triangular_number_x4:shared", ok, "ring::triangular_number_x4 is used by %s" % sorted(users), kind="N")
 
 
+def no_32bit_wrap(ctx, crate, clause="64-bit-ring-arithmetic"):
+    """N: ring indices reach 12*4^29 ~ 2^62 and ring numbers 4*2^29 = 2^31: products / shifts /
+    sums of them must be carried out in 64 bits.  Every u32/i32 mul, shl or add computed by
+    to_ring / from_ring (helpers analysed in place) must fit its type for depth <= 29,
+    nside <= 2^29, i, j < 2^29, under interval analysis."""
+    from intervals import Intervals
+    from mir import INT_TYS
+    for fn in ("nested::Layer::to_ring", "nested::Layer::from_ring"):
+        b = ctx.anchor(crate, fn, clause)
+        if b is None: continue
+        vals = []
+        e = Engine(crate, opaque={"nested::Layer::decode_hash"})
+        e.value_hook = lambda v, loc, facts: vals.append((v, loc, facts)) if v[0] == 'op' and v[2] in ("u32", "i32") and v[1] in ("mul", "shl", "add") else None
+        e.run(fn); ctx.functions |= e.visited_fns
+        st = ('deref', ('p', 'self'))
+        fld = lambda n: ('fld', st, crate.field_index("nested::Layer", n))
+        bounds = {fld("depth"): (0, 29), fld("nside"): (1, 1 << 29), fld("nside_minus_1"): (0, (1 << 29) - 1), fld("twice_depth"): (0, 58),
+                  ('p', 'hash'): (0, (12 << 58) - 1)}
+        dec = [ev for ev in e.events.values() if ev.callee == "nested::Layer::decode_hash"]
+        for d in dec:
+            bounds[('fld', d.ret, 0)] = (0, 11); bounds[('fld', d.ret, 1)] = (0, (1 << 29) - 1); bounds[('fld', d.ret, 2)] = (0, (1 << 29) - 1)
+        ptys = {}
+        for pth in e.visited_fns:
+            bb = crate.body(pth)
+            for i, nme in enumerate(bb.param_names()):
+                t = bb.local_ty(i + 1)
+                if t["k"] == "int": ptys[nme] = t["n"]
+        bad = []
+        for v, loc, facts in vals:
+            iv = Intervals(e.phi_ops, facts, lambda t: ptys.get(t[1]) if t[0] == 'p' else None, bounds=bounds)
+            ra, rb = iv.ival(v[3]), iv.ival(v[4])
+            if ra is None or rb is None: continue
+            if v[1] == "mul": hi = max(abs(ra[0]), abs(ra[1])) * max(abs(rb[0]), abs(rb[1]))
+            elif v[1] == "add": hi = ra[1] + rb[1]
+            else: hi = ra[1] << min(rb[1], 64) if ra[1] >= 0 and rb[1] >= 0 else 0
+            w, sgn = INT_TYS[v[2]]
+            if hi >= (1 << (w - (1 if sgn else 0))):
+                bad.append("%s at %s (%s): operands up to %s and %s" % (show(v)[:70], loc[0], loc[2], ra[1], rb[1]))
+        ctx.report(clause, fn + ":no-32-bit-overflow", not bad, "%d 32-bit mul/shl/add terms, all within range for depth <= 29" % len(vals) if not bad else
+                   "32-bit arithmetic can wrap: %s" % bad[:2], at=b.span, kind="N")
+
+
 def run(ctx):
     crate = ctx.crate("rel")
+    no_32bit_wrap(ctx, crate)
     n = e7.check_fn(ctx, crate, "nested::Layer::from_ring", "exact-integer-sqrt")
     ctx.floor("sqrt-chains-in-from_ring", n, 1)
     boundaries(ctx, crate)
